@@ -632,8 +632,8 @@ func (c *caseRun) checkRelay(tag string, rel bridge.BlockRelay, h int64, info ma
 	if !bytes.Equal(out.AppHash[:], rec.Header.AppHash) {
 		// diagnose with the real store path
 		diag := c.layoutDiag(h - 1)
-		c.violate("app-hash:"+tag, fmt.Sprintf("oracle root + 5 positional multistore siblings hash to %x, header %d has app hash %x.%s",
-			out.AppHash, h, rec.Header.AppHash, diag), info)
+		c.violate("app-hash:"+tag, fmt.Sprintf("oracle root + 5 positional multistore siblings hash to %x, header %d has app hash %x%s",
+			out.AppHash, h, []byte(rec.Header.AppHash), diag), info)
 		return false
 	}
 	if !bytes.Equal(out.BlockHash[:], rec.Commit.BlockID.Hash) {
@@ -713,7 +713,7 @@ func (c *caseRun) checkLayout(rel bridge.BlockRelay, h int64, info map[string]an
 	root, path, found := bridge.StoreRootAndPath(leaves, "oracle")
 	rec := c.n.blocks[h]
 	if !bytes.Equal(root[:], rec.Header.AppHash) {
-		c.run.Inconclusive(fmt.Sprintf("reference multistore tree over %d stores gives %x, app hash is %x", len(leaves), root, rec.Header.AppHash))
+		c.run.Inconclusive(fmt.Sprintf("reference multistore tree over %d stores gives %x, app hash is %x", len(leaves), root, []byte(rec.Header.AppHash)))
 		c.failed = true
 		return false
 	}
@@ -1278,7 +1278,7 @@ func main() {
 		runCase(run, c.Case)
 		run.Finish()
 	}
-	n := run.N(96, 4000)
+	n := run.N(64, 3000)
 	sim.Parallel(n, 16, func(i int) { runCase(run, i) })
 	for _, cnt := range []string{"proof:single", "proof:count", "proof:multi", "evm-bytes-verified", "store-layout-checked",
 		"validators:01", "validators:16", "round:0", "round:max", "round:other", "votes:nil", "votes:absent", "ts:nanos=0", "ts:nanos<128",
